@@ -83,6 +83,13 @@ def judge(st, gi, n, X, cfg, tag='native', keep=None):
     best, distinct = oracle_best(M, u, Mt, X, pen, adm)
     out = nat.run(tags, deps, unary_penalty=pen, pruning_size=pruning, use_beta=use_beta, beta=beta,
                   nbest=1, max_step=cfg.get('max_step', 10000000))
+    if 'error' in out:
+        st.count('executions', X.shape[0])
+        st.violation(f'engine_error/{g.name}', f'parse_sentence drove the grammar callbacks into an error: {out["error"]}', x=X[0].tolist(), engine=tag, grammar=g.name, n=n, cfg=cfg)
+        if keep is not None:
+            z = np.zeros(X.shape[0])
+            keep.update(status=np.full(X.shape[0], -1), got=z - np.inf, best=z, pops=z.astype(int), out=out)
+        return
     status, first, nres, mono, pops = out['status'], out['first'], out['nres'], out['mono'], out['pops']
     got = np.where(status == 0, out['scores'][np.minimum(first, max(len(out['scores']) - 1, 0))] if len(out['scores']) else -np.inf, -np.inf).astype(np.float64)
     st.count('executions', X.shape[0])
@@ -137,9 +144,13 @@ def judge_full(st, gi, n, X, cfg):
     best, distinct = oracle_best(M, u, Mt, X, pen, None)
     parsing, rt = boot.load_parsing()
     rt.trace_clear()
-    res = S.run_full(g, tags, deps, unary_penalty=pen, use_beta=False, pruning_size=T, nbest=1)
     st.count('executions_full_stack', X.shape[0])
     base = dict(engine='full', grammar=g.name, n=n, cfg=cfg)
+    try:
+        res = S.run_full(g, tags, deps, unary_penalty=pen, use_beta=False, pruning_size=T, nbest=1)
+    except Exception as e:
+        st.violation(f'engine_error/{g.name}', f'depccg.parsing.run raised {e!r}', x=X[0].tolist(), **base)
+        return
     if len(res) != X.shape[0]:
         st.violation('full/length', f'{len(res)} results for {X.shape[0]} sentences', **base)
         return
